@@ -491,7 +491,6 @@ func (db *Backend) ListBucketVersions(
 	}
 
 	var truncated = false
-	var first = true
 	var cnt int64 = 0
 
 	// FIXME: The S3 docs have this to say on the topic of result ordering:
@@ -518,18 +517,23 @@ func (db *Backend) ListBucketVersions(
 		}
 
 		versions := iter.Value().(*bucketObject).Iterator()
-		if first {
-			if page.VersionIDMarker != "" {
-				if !versions.Seek(page.VersionIDMarker) {
-					// FIXME: log
-					return result, gofakes3.ErrInternal
-				}
+
+		// The markers name the last version the previous page delivered:
+		// resume after it. Version IDs sort in creation order, which is also
+		// the order the versions of a key are listed in.
+		var resumeAfter gofakes3.VersionID
+		if object.name == page.KeyMarker {
+			if page.VersionIDMarker == "" {
+				continue // everything about the marker key has been delivered
 			}
-			first = false
+			resumeAfter = page.VersionIDMarker
 		}
 
 		for versions.Next() {
 			version := versions.Value()
+			if resumeAfter != "" && version.versionID <= resumeAfter {
+				continue
+			}
 
 			if version.deleteMarker {
 				marker := &gofakes3.DeleteMarker{
@@ -559,6 +563,10 @@ func (db *Backend) ListBucketVersions(
 			cnt++
 			if page.MaxKeys > 0 && cnt >= page.MaxKeys {
 				truncated = versions.Next()
+				result.NextKeyMarker = version.name
+				if bucket.versioning != gofakes3.VersioningNone {
+					result.NextVersionIDMarker = version.versionID
+				}
 				goto done
 			}
 		}
@@ -566,6 +574,9 @@ func (db *Backend) ListBucketVersions(
 
 done:
 	result.IsTruncated = truncated || iter.Next()
+	if !result.IsTruncated {
+		result.NextKeyMarker, result.NextVersionIDMarker = "", ""
+	}
 
 	return result, nil
 }
